@@ -263,6 +263,8 @@ def run (ctx):
   # ---- D9 ------------------------------------------------------------------------------------------------------
   _wire_symmetry(ctx, repo, lof)
   _pack_gating(ctx, repo, lof)
+  _class_level_len(ctx, repo, lof)
+  _lazy_caches(ctx, repo, lof)
   # ---- D11 ------------------------------------------------------------------------------------------------------
   _bitfields(ctx, repo, nx)
   _units(ctx, repo, (lof, nx))
@@ -590,7 +592,7 @@ def _pack_gating (ctx, repo, lof):
   # which ethertypes let each protocol-dependent field through pack(): decided by evaluating the arguments of the struct.pack
   # calls for a sample match (distinct non-zero field values) under each ethertype - closures, booleans computed up front and
   # conditional expressions are all the same to this
-  SAMPLE = {'nw_tos': 0x11, 'nw_proto': 6, 'nw_src': 0x0a000001, 'nw_dst': 0x0a000002, 'tp_src': 80, 'tp_dst': 81}
+  SAMPLE = {'nw_tos': 0x2c, 'nw_proto': 6, 'nw_src': 0x0a000001, 'nw_dst': 0x0a000002, 'tp_src': 80, 'tp_dst': 81}
   nested = dict((fn.name, fn) for fn in walk_no_nested(pk.node) if isinstance(fn, ast.FunctionDef))
   class ClosureHook(object):
     wants_env = True
@@ -625,9 +627,10 @@ def _pack_gating (ctx, repo, lof):
       if call_name(call) == 'pack' and norm(call.func.value) == 'struct': pack_calls.append((n_, call))
   gate = dict((fld, set()) for fld in SAMPLE)
   decided_types = set()
-  def written_under (t):
-    ex = {'self.dl_type': t, 'self.wildcards': 0, 'self.in_port': 1, 'self.dl_vlan': 5, 'self.dl_vlan_pcp': 1, 'self.dl_src': None, 'self.dl_dst': None}
+  def written_under (t, proto=6):
+    ex = {'self.dl_type': t, 'self.wildcards': 0, 'self.in_port': 3, 'self.dl_vlan': 5, 'self.dl_vlan_pcp': 2, 'self.dl_src': None, 'self.dl_dst': None}
     for k_, v_ in SAMPLE.items(): ex['self.' + k_] = v_
+    ex['self.nw_proto'] = proto
     ms = [((lambda e: isinstance(e, ast.Call) and call_name(e) == '_assert'), True), ((lambda e: isinstance(e, ast.Call) and call_name(e) == '_wire_wildcards'), 0),
           ((lambda e: isinstance(e, ast.Call) and call_name(e) == 'toRaw'), b'\0' * 6)]
     vals = set(); unknown = False
@@ -674,6 +677,27 @@ def _pack_gating (ctx, repo, lof):
             if isinstance(bv, int) and (v_ & bv) == 0: cleared.add(bit_)
           per_type.setdefault(t, []).append(cleared)
   n = 0
+  # transport ports (ICMP type / code) depend on the IP protocol as well: per (ethertype, protocol) the wildcard function and pack()
+  # must agree - a port the wildcards call specified is written, for every protocol the wildcard function lets through
+  for t in sorted(types_):
+    for proto in (1, 6, 17, 47):
+      keep_ = None
+      for r in [n_ for n_ in g.nodes if n_.kind == 'return' and n_.ast.value is not None]:
+        for v_ in q.values_at(repo, lof, g, q.Env({'self.dl_type': t, 'self.nw_proto': proto, wparam: allw}), r, r.ast.value, m):
+          if not isinstance(v_, int) or isinstance(v_, bool): keep_ = '?'; continue
+          k_ = set(f_ for f_ in ('tp_src', 'tp_dst') if isinstance(ofreg.const_value(repo, lof, FW[f_]), int) and (v_ & ofreg.const_value(repo, lof, FW[f_])) != 0)
+          keep_ = k_ if keep_ is None else (keep_ if keep_ == '?' else (keep_ | k_))
+      if keep_ is None or keep_ == '?': continue
+      vals, unknown = written_under(t, proto)
+      if unknown: continue
+      for fld in ('tp_src', 'tp_dst'):
+        n += 1
+        kept = fld in keep_; written = SAMPLE[fld] in vals
+        good = (not kept) or written
+        ctx.ob('R-SIB', pk, "dl_type 0x%04x, nw_proto %d: field `%s` kept by _wire_wildcards is also written by pack" % (t, proto, fld), good,
+               "kept=%s written=%s" % (kept, written) if good else
+               "for dl_type 0x%04x and nw_proto %d _wire_wildcards leaves %s specified but pack() writes 0 for `%s`: the wire says 'specified, value 0' (for ICMP: type / code 0) and the decoded match differs from the encoded one"
+               % (t, proto, FW[fld], fld), pk, 'D9')
   for t, sets in per_type.items():
     always_cleared = set.intersection(*sets) if sets else set()
     for fld, bit in FW.items():
@@ -754,3 +778,74 @@ def _bitfields (ctx, repo, nx):
 
 def _pure_hook (repo, module):
   return q.PureCallHook(repo, module)
+
+
+def _class_level_len (ctx, repo, lof):
+  """`len(ofp_xxx)` on a *class* goes through the metaclass: it calls `cls.__len__()` and falls back to `_MIN_LENGTH`.  For a class
+  with an instance-method __len__ that call raises TypeError; for a class without any __len__ (ofp_header) the attribute found is
+  the metaclass's own method, so it recurses until RecursionError.  The fallback handler has to catch what the classes actually
+  used with len() make it raise."""
+  meta = lof.classes.get('_ofp_meta')
+  ml = meta.methods.get('__len__') if meta is not None else None
+  if ml is None: raise AnalysisError("_ofp_meta.__len__ vanished")
+  ctx.analysed(ml)
+  hs = [h for h in ast.walk(ml.node) if isinstance(h, ast.ExceptHandler)]
+  def catches (exc):
+    fam = {'TypeError': ('TypeError', 'Exception', 'BaseException'), 'RecursionError': ('RecursionError', 'RuntimeError', 'Exception', 'BaseException')}[exc]
+    for h in hs:
+      if h.type is None: return True
+      ts = h.type.elts if isinstance(h.type, ast.Tuple) else [h.type]
+      if any(norm(t_).split('.')[-1] in fam for t_ in ts): return True
+    return False
+  n = 0
+  mods = [lof] + [m_ for nm_, m_ in repo.modules.items() if nm_.endswith('openflow.nicira')]
+  seen = set()
+  for m_ in mods:
+    for c_ in calls_in(m_.tree, nested=True):
+      if call_name(c_) != 'len' or len(c_.args) != 1 or not isinstance(c_.args[0], ast.Name): continue
+      k = m_.lookup(c_.args[0].id)
+      if not hasattr(k, 'find_method') or not any(b.name == 'ofp_base' for b in k.mro()): continue
+      if k.name in seen: continue
+      seen.add(k.name); n += 1
+      f = k.find_method('__len__')
+      need = None if (f is not None and f.is_static) else ('TypeError' if f is not None else 'RecursionError')
+      good = need is None or catches(need)
+      ctx.ob('R-CONTAIN', ml, "class-level `len(%s)` yields a length" % k.name, good,
+             "static __len__" if need is None else ("fallback to _MIN_LENGTH catches %s" % need) if good else
+             "%s %s, so `cls.__len__()` in the metaclass raises %s, which the fallback handler (%s) does not catch: every codec that evaluates `len(%s)` (line %d) raises instead of using _MIN_LENGTH"
+             % (k.name, "has an instance-method __len__" if f is not None else "defines no __len__ at all (the lookup finds the metaclass's own method, which recurses)", need,
+                ', '.join(norm(h.type) if h.type is not None else 'bare' for h in hs) or 'none', k.name, c_.lineno), (m_, c_), 'D3')
+  ctx.floor('classes used with class-level len()', n, 3)
+
+
+def _lazy_caches (ctx, repo, lof):
+  """A codec object that keeps a lazily packed copy (`if self.C is None: self.C = pack(self.S)`) of a field S: every store to
+  `self.S` outside the constructor is followed, on every path, by the reset `self.C = None` - otherwise length and bytes are
+  computed from the previous value (an object decoded into, or assigned to, after it was packed once)."""
+  n = 0
+  for c in lof.classes.values():
+    pairs = []
+    for f in c.methods.values():
+      for x in ast.walk(f.node):
+        if not (isinstance(x, ast.If) and isinstance(x.test, ast.Compare) and len(x.test.ops) == 1 and isinstance(x.test.ops[0], ast.Is)
+                and isinstance(x.test.comparators[0], ast.Constant) and x.test.comparators[0].value is None and q.is_self_attr(x.test.left)): continue
+        C = x.test.left.attr
+        fills = [st for b in x.body for st in ast.walk(b) if isinstance(st, ast.Assign) and any(q.is_self_attr(t, C) for t in st.targets)]
+        if not fills: continue
+        srcs = set(y.attr for b in x.body for y in ast.walk(b) if q.is_self_attr(y) and isinstance(y.ctx, ast.Load) and y.attr != C and y.attr.startswith('_'))
+        for S in srcs: pairs.append((C, S, f))
+    for C, S, filler in pairs:
+      for f in c.methods.values():
+        if f.name == '__init__': continue
+        g = q.cfg_of(f)
+        sn = [n_ for n_ in g.nodes if isinstance(n_.ast, (ast.Assign, ast.AugAssign)) and any(q.is_self_attr(t, S) for t in (n_.ast.targets if isinstance(n_.ast, ast.Assign) else [n_.ast.target]))]
+        if not sn: continue
+        rn = [n_ for n_ in g.nodes if isinstance(n_.ast, ast.Assign) and any(q.is_self_attr(t, C) for t in n_.ast.targets) and isinstance(n_.ast.value, ast.Constant) and n_.ast.value.value is None]
+        for s_ in sn:
+          n += 1
+          good = bool(rn) and (g.postdominates(rn, s_) or any(g.dominates(r_, s_) and not [w_ for w_ in g.nodes if w_ is not r_ and w_ in g.reachable(r_, exc=False) and s_ in g.reachable(w_, exc=False)
+                                                                                             and isinstance(w_.ast, ast.Assign) and any(q.is_self_attr(t, C) for t in w_.ast.targets)] for r_ in rn))
+          ctx.ob('R-EFFECT', f, "a store to `self.%s` resets the packed copy `self.%s`" % (S, C), good, "`self.%s = None` on every path" % C if good else
+                 "`%s` replaces the field that %s packs lazily into self.%s, without `self.%s = None`: if the object has been packed (or measured) before, its length and bytes are still those of the previous value - "
+                 "the header length no longer equals the byte count of what the object now holds" % (s_.text(50), filler.qual, C, C), (lof, s_.ast), 'D5')
+  ctx.floor('stores to lazily packed fields', n, 2)
